@@ -438,6 +438,9 @@ class XEval:
                 return ("k", base[1])
             if base[0] == "self":
                 m = base[1].find_method(e.attr)
+                if m is not None and any(ast.unparse(d_) == "property" for d_ in m.node.decorator_list):
+                    r = self.call_func(m, {m.positional_params[0]: base})  # a property: its getter runs
+                    return r[1] if r is not None else ("none",)
                 if m is not None:
                     return ("method", m, base)
             raise AnalysisError(f"XFIELD-1: attribute {norm(e)} in {f.fq} not modelled")
